@@ -78,7 +78,20 @@ def check(ob, extra_axioms=(), want_model=True, rlimit=None):
   ob.backend = 'z3'
   if r == z3.unknown:
     ob.reason = s.reason_unknown()
-    r2 = run_cvc5(s.to_smt2())
+    smt2 = s.to_smt2()
+    if '(lambda ' in smt2:
+      # cvc5 1.0 does not read z3's array lambdas: give it the obligation without the hypotheses that contain one
+      # (leaving hypotheses out is sound); a goal with a lambda stays with z3
+      if '(lambda ' in z3.Not(ob.goal).sexpr():
+        smt2 = None
+      else:
+        s_ = z3.Solver()
+        for a in list(extra_axioms) + list_axioms() + list(ob.pc):
+          if '(lambda ' not in a.sexpr():
+            s_.add(a)
+        s_.add(z3.Not(ob.goal))
+        smt2 = s_.to_smt2()
+    r2 = run_cvc5(smt2) if smt2 is not None else 'unknown'
     if r2 == 'unsat':
       ob.result, ob.backend = 'proved', 'cvc5'
       ob.time = time.time() - t0
